@@ -7,10 +7,11 @@ import (
 )
 
 // SplitPathQuery returns a copy of req in which no GET/DELETE route combines path variables with
-// query parameters: such routes alternately lose their query fields or their path variables. The
-// emitted TS server module of the ORIGINAL fails to load as a whole (duplicate `const url`), which
-// hides every other route of the file; the split copy lets those other routes (and the two halves
-// of the combined ones) run. The result says how many routes were changed.
+// query parameters: such routes alternately lose their query fields or their path variables.
+// Before /repo 41e5e05 the emitted TS server module of the ORIGINAL failed to load as a whole
+// (duplicate `const url`); the split copies kept every other route running and are kept as a
+// shape of their own (path-only and query-only GET/DELETE routes) next to the originals. The
+// result says how many routes were changed.
 func SplitPathQuery(req *ir.Request) (*ir.Request, int) {
 	c := req.Clone()
 	changed := 0
@@ -71,8 +72,8 @@ func SplitPathQuery(req *ir.Request) (*ir.Request, int) {
 }
 
 // InteropCorpus is the fixed corpus of the TS/Go interoperation property: hand-written schemas
-// placed first in every run. Variant 0 loads in every runtime (no GET/DELETE route has both path
-// variables and query parameters) and covers every verb, a service base path with two segments,
+// placed first in every run. Variant 0 has no GET/DELETE route with both path variables and
+// query parameters and covers every verb, a service base path with two segments,
 // two services in one file, adjacent / first / last path variables, query parameters of every
 // TS-visible kind, service- and method-level headers and two headers whose TypeScript option
 // property coincides (X-API-Key / Api-Key). Variant 1 adds the canonical REST shape
